@@ -173,7 +173,17 @@ def install(repo=None):
             if getattr(mod, 'Parallel', None) is sched.SimParallel:
                 n += 1
     from sim import simtok
-    from py_stringsimjoin.join import edit_distance_join as edj_mod
+    # the public wrappers import their pure-Python twins lazily: import them
+    # now (import only, nothing is called), so that forked children do not
+    # pay for it in every run
+    import importlib
+    for m in ('jaccard_join_py', 'cosine_join_py', 'dice_join_py',
+              'overlap_join_py', 'overlap_coefficient_join_py',
+              'edit_distance_join_py'):
+        try:
+            importlib.import_module('py_stringsimjoin.join.' + m)
+        except Exception:   # noqa: a broken module shows up when it is called
+            pass
     fn = ssj.edit_distance_join
     dflt = fn.__defaults__[-1]
     simtok.adopt_default(dflt)
